@@ -149,7 +149,18 @@ def case_tetra(ctx, rng, wd, n5=False, diamond=False):
     else:
         N = 5 if n5 else int(rng.integers(5, 61))
         cell = gc.make_cell(rng, 3, str(rng.choice(["ortho", "ortho", "tri"])), lmin=4, lmax=9)
-        frac = gc.make_frac(rng, 3, N, str(rng.choice(["gas", "lattice", "cluster", "hardcore"])))
+        if not n5 and N >= 52:
+            # beyond the usual size and strongly inhomogeneous: compact droplets with a dilute vapour between them (a cell / grid based
+            # neighbour search sized for the mean density finds the wrong "nearest four" exactly here)
+            N = int(rng.choice([70, 130, 200, 300]))
+            nv = max(4, N // 8)
+            k = int(rng.integers(2, 5))
+            centres = rng.random((k, 3))
+            frac = np.vstack([(centres[rng.integers(0, k, N - nv)] + rng.normal(0, 0.025, (N - nv, 3))) % 1.0, rng.random((nv, 3))])
+            frac = frac[rng.permutation(N)]
+            ctx.count("tetrahedral_droplet_cases")
+        else:
+            frac = gc.make_frac(rng, 3, N, str(rng.choice(["gas", "lattice", "cluster", "hardcore"])))
         ppp = gc.random_mask(rng, 3)
     N = len(frac)
     frames = 1 if diamond else int(rng.choice([1, 2]))
@@ -252,6 +263,21 @@ def case_nematic(ctx, rng, wd):
         ctx.close("nematic_second_call", np.asarray(obj.QIJ), Q, key + "/second_call/tensor", rtol=1e-10, atol=1e-13, what="Q tensor after a second call", data=info)
     if use_nl:
         Qraw = np.einsum("tia,tib->tiab", U, U) - 0.5 * np.eye(2)[None, None]
+        # history: the neighbour list behind the SAME file name is regenerated (a scan over coarse-graining lengths writes every list to
+        # neighborlist.dat) and the same object is asked again: the answer must follow the list the file holds now
+        lists2 = [random_lists(rng, N) for _ in range(T)]
+        write_nl(fn, lists2)
+        ok5, res5 = ctx.call(key + "/file_rewritten", obj.tensor, 2, fn, 30, eig, "nem5", data=info)
+        if ok5:
+            Q5 = np.empty_like(Qraw)
+            for t in range(T):
+                for i in range(N):
+                    Q5[t, i] = Qraw[t, [i] + lists2[t][i]].mean(axis=0)
+            ref5 = 2 * np.linalg.eigvalsh(Q5).max(axis=2) if eig else np.sqrt(2 * np.einsum("tiab,tiba->ti", Q5, Q5))
+            ctx.close("nematic_file_rewritten", np.asarray(res5), ref5, key + "/file_rewritten/scalar", rtol=1e-9, atol=1e-12,
+                      what="scalar order after the neighbour file was rewritten under the same name", data=info)
+            ctx.close("nematic_file_rewritten", np.asarray(obj.QIJ), Q5, key + "/file_rewritten/tensor", rtol=1e-10, atol=1e-13,
+                      what="Q tensor after the neighbour file was rewritten under the same name", data=info)
         ok4, res4 = ctx.call(key + "/second_call", obj.tensor, 2, "", 30, eig, "nem4", data=info)
         if ok4:
             ref4 = 2 * np.linalg.eigvalsh(Qraw).max(axis=2) if eig else np.sqrt(2 * np.einsum("tiab,tiba->ti", Qraw, Qraw))
@@ -280,6 +306,14 @@ def case_gyration(ctx, rng):
         Rm, _ = np.linalg.qr(rng.normal(size=(d, d)))
         X = X @ Rm.T
     X = X + rng.uniform(-50, 50, size=d)
+    far = 0.0
+    if rng.random() < 0.25:
+        # the same cloud far from the coordinate origin (1e3 .. 1e6 length units): the descriptors are defined through CENTRED moments
+        off = rng.normal(size=d)
+        off *= 10.0 ** rng.uniform(3, 6) / np.linalg.norm(off)
+        X = X + off
+        far = float(np.linalg.norm(off))
+        ctx.count("gyration_far_from_origin")
     c = X - X.mean(axis=0)
     lam = np.sort(np.linalg.eigvalsh(c.T @ c / N))
     lam = np.maximum(lam, 0)
@@ -310,6 +344,8 @@ def case_gyration(ctx, rng):
         return
     sc = max(1.0, float(lam.max()))
     tol = np.array([1e-9 * max(1, Rg), 1e-9 * sc, 1e-9 * sc, 1e-7, 1e-7 * max(1.0, abs(fr))] if d == 3 else [1e-9 * max(1, Rg), 1e-9 * sc, 1e-7 * max(1.0, abs(fr))])
+    # coordinates at distance |r| carry an absolute rounding of eps*|r|: centred moments are then defined to eps*|r|/Rg relative
+    tol = tol * (1.0 + 2e3 * np.finfo(float).eps * far / max(Rg, 1e-12) / 1e-9)
     bad = np.abs(got - np.array(exp)) > tol
     ctx.check("gyration", not bad.any(), f"gyration_tensor/{d}D/value", lambda: f"descriptors {got.tolist()} vs documented functions of the eigenvalues {list(map(float, exp))}", info)
 
